@@ -1,21 +1,27 @@
-import Ruint.Base
+import Ruint.Model.Facade
 /-!
-Driver for C20 (facade parity), first version: no model yet (`model = "skip"`); the spec column is the
-PARITY PREDICATE evaluated on the harness output `F|I`
-(F = facade result, I = result of the corresponding inherent method / plain comparison, both computed
-in the same process by `harness/src/bin/c20.rs`, each side in its own `catch_unwind`).
+Driver for C20 (facade parity).
 
-`pred:true` iff
- (a) `F = I`, or
- (b) the op is an "unwrap" op — the facade's signature cannot express the failure that the inherent
-     method reports as `None` — and (`I = some X ∧ F = X`) or (`I = none ∧ F = panic`), or
- (c) op = `ct.bit` with index ≥ bits, `F = panic`, `I = f`
-     (documented: `bit_ct` panics for index ≥ BITS while `bit` returns false), or
- (d) op = `ni.next_multiple_of` (trait-provided default of num-integer, wraps on overflow) and
-     `I = panic` (the inherent method panics on overflow / is `todo!()` on the pinned tree).
-Nothing else is excused.
+The harness (`harness/src/bin/c20.rs`) prints `F|I` per case: F = facade result, I = result of the
+corresponding inherent method / plain comparison, both computed in the same process, each side in its
+own `catch_unwind`.
+
+* **spec column** — the PARITY PREDICATE on `F|I`. `pred:true` iff
+  (a) `F = I`, or
+  (b) the op is an "unwrap" op — the facade's signature cannot express the failure that the inherent
+      method reports as `None` — and (`I = some X ∧ F = X`) or (`I = none ∧ F = panic`), or
+  (c) op = `ct.bit` with index ≥ bits, `F = panic`, `I = f`
+      (documented: `bit_ct` panics for index ≥ BITS while `bit` returns false), or
+  (d) op = `ni.next_multiple_of` (trait-provided default of num-integer, wraps on overflow) and
+      `I = panic` (the inherent method panics on overflow) — and in that case F must still be the
+      value of the default's model (`Facade.nextMultipleOf`).
+  Nothing else is excused.
+* **model column** — for the facades with logic of their own (`Ruint.Facade.*`, the functions the
+  theorems of `Props/C20.lean` are about) and for the operator / shift / arithmetic families, the
+  expected `F|I` computed from the models resp. from plain `Nat` arithmetic; `skip` for the remaining
+  pure forwards (their check is the parity predicate alone).
 -/
-open Ruint
+open Ruint Ruint.Facade
 
 namespace Ruint.DrvC20
 
@@ -42,13 +48,250 @@ def parity (op : String) (bits : Nat) (rest : List String) (f i : String) : Bool
         (match rest with
          | [_, n] => decide (bits ≤ parseHex n)
          | _ => false))
-  || (op == "ni.next_multiple_of" && i == "panic")
+  || (op == "ni.next_multiple_of" && i == "panic" &&
+        (match rest with
+         | [a, b] => f == (match nextMultipleOf bits (parseHex a) (parseHex b) with
+                           | some v => toHex v | none => "panic")
+         | _ => false))
+
+/-! ## expected outputs -/
+
+def same (s : String) : String := s ++ "|" ++ s
+def v2 (x : Nat) : String := same (toHex x)
+def pp : String := "panic|panic"
+def ov (o : Option Nat) : String := match o with | some x => v2 x | none => pp
+def so (o : Option Nat) : String := match o with | some x => same ("some " ++ toHex x) | none => same "none"
+/-- facade unwraps, inherent returns the Option -/
+def uw (o : Option Nat) : String := match o with
+  | some x => toHex x ++ "|some " ++ toHex x
+  | none => "panic|none"
+def fl (x : Nat) (b : Bool) : String := same (toHex x ++ " " ++ boolStr b)
+def bs (b : Bool) : String := same (boolStr b)
+
+/-- `n as T` then `as usize`, for the primitive integer type named `t` (`n` is a u64/u128 pattern). -/
+def castAmt (t : String) (n : Nat) : Nat :=
+  let w := match t with
+    | "u8" | "i8" => 8 | "u16" | "i16" => 16 | "u32" | "i32" => 32 | _ => 64
+  let v := n % 2 ^ w
+  if t.startsWith "i" && v ≥ 2 ^ (w - 1) then 2 ^ 64 - (2 ^ w - v) else v
+
+/-- `k as T` as a mathematical integer (`k` is a u128 pattern). -/
+def castInt (t : String) (k : Nat) : Int :=
+  let w := match t with
+    | "u8" | "i8" => 8 | "u16" | "i16" => 16 | "u32" | "i32" => 32 | "u128" | "i128" => 128 | _ => 64
+  let v := k % 2 ^ w
+  if t.startsWith "i" && v ≥ 2 ^ (w - 1) then Int.ofNat v - Int.ofNat (2 ^ w) else Int.ofNat v
+
+/-- value bits of the primitive target type. -/
+def capOf (t : String) : Nat :=
+  match t with
+  | "u8" => 8 | "i8" => 7 | "u16" => 16 | "i16" => 15 | "u32" => 32 | "i32" => 31
+  | "u128" => 128 | "i128" => 127 | "u64" | "usize" => 64 | _ => 63
+
+def shl (bits a k : Nat) : Nat := if k ≥ bits then 0 else (a * 2 ^ k) % 2 ^ bits
+def shr (bits a k : Nat) : Nat := if k ≥ bits then 0 else a / 2 ^ k
+def shlLost (bits a k : Nat) : Bool := if k ≥ bits then a != 0 else decide (2 ^ bits ≤ a * 2 ^ k)
+def shrLost (bits a k : Nat) : Bool := if k ≥ bits then a != 0 else decide (a % 2 ^ k ≠ 0)
+def rotl (bits a n : Nat) : Nat :=
+  if bits = 0 then 0 else
+    let r := n % bits
+    (shl bits a r ||| shr bits a (bits - r)) % 2 ^ bits
+def rotr (bits a n : Nat) : Nat :=
+  if bits = 0 then 0 else rotl bits a (bits - n % bits)
+def ashr (bits a k : Nat) : Nat :=
+  if bits = 0 then 0 else
+    let r := shr bits a k
+    if a.testBit (bits - 1) then r ||| shl bits (2 ^ bits - 1) (bits - min k bits) else r
+
+def popcount (bits a : Nat) : Nat := (List.range bits).foldl (fun c i => if a.testBit i then c + 1 else c) 0
+def bitLenN (a : Nat) : Nat := if a = 0 then 0 else Nat.log2 a + 1
+def ctz (bits a : Nat) : Nat :=
+  if a = 0 then bits else ((List.range bits).find? (fun i => a.testBit i)).getD bits
+def revBits (bits a : Nat) : Nat :=
+  (List.range bits).foldl (fun r i => if a.testBit i then r + 2 ^ (bits - 1 - i) else r) 0
+
+def hexByte (b : Nat) : String := String.ofList [hexChar (b / 16), hexChar (b % 16)]
+def bytesStr (l : List Nat) : String := if l.isEmpty then "-" else String.join (l.map hexByte)
+def parseBytes (s : String) : List Nat :=
+  if s = "-" then [] else
+    let cs := s.toList
+    (List.range (cs.length / 2)).map fun i => hexVal (cs.getD (2 * i) '0') * 16 + hexVal (cs.getD (2 * i + 1) '0')
+
+def parseList (s : String) : List Nat := if s = "-" then [] else (s.splitOn ",").map parseHex
+
+/-- ops without operands -/
+def e0 (op : String) (bits : Nat) : String :=
+  match op with
+  | "nt.Zero.zero" | "nt.Bounded.min_value" | "nt.LowerBounded.min_value" | "bits.default" => v2 0
+  | "nt.One.one" => v2 (one bits)
+  | "nt.Bounded.max_value" | "nt.UpperBounded.max_value" => v2 (2 ^ bits - 1)
+  | _ => "skip"
+
+/-- ops with one operand token -/
+def e1 (op : String) (parts : List String) (bits : Nat) (a : String) : String :=
+  let m := 2 ^ bits
+  let x := parseHex a
+  match parts with
+  | ["neg", _] => v2 (wsub bits 0 x)
+  | ["not", _] | ["bits", "not", _] => v2 (m - 1 - x)
+  | ["sum", _] => v2 (sum bits (parseList a))
+  | ["prod", _] => v2 (product bits (parseList a))
+  | ["nt", "NumCast", "from", t] => so (fromPrim bits (castInt t x))
+  | ["nt", "ToPrimitive", t] => so (toPrim (capOf (t.drop 3).toString) x)
+  | ["nt", "FromPrimitive", t] => so (fromPrim bits (castInt (t.drop 5).toString x))
+  | _ =>
+    match op with
+    | "ni.is_even" => bs (isEven bits x)
+    | "ni.is_odd" => bs (isOdd bits x)
+    | "ni.inc" => v2 (inc bits x)
+    | "ni.dec" => v2 (dec bits x)
+    | "zeroize.uint" | "zeroize.bits" | "nt.Zero.set_zero" => v2 0
+    | "bits.leading_zeros" | "nt.PrimInt.leading_zeros" => v2 (bits - bitLenN x)
+    | "bits.trailing_zeros" | "nt.PrimInt.trailing_zeros" => v2 (ctz bits x)
+    | "bits.leading_ones" | "nt.PrimInt.leading_ones" => v2 (bits - bitLenN (m - 1 - x))
+    | "bits.trailing_ones" | "nt.PrimInt.trailing_ones" => v2 (ctz bits (m - 1 - x))
+    | "bits.reverse_bits" | "nt.PrimInt.reverse_bits" => v2 (revBits bits x)
+    | "bits.into_inner" | "bits.as_uint" | "bits.from_uint" | "nt.PrimInt.to_le" | "nt.PrimInt.from_le" => v2 x
+    | "bits.to_be_bytes_vec" | "bits.to_be_bytes" | "nt.ToBytes.to_be_bytes" =>
+      same (bytesStr (beBytes (nbytes bits) x))
+    | "bits.as_le_bytes" | "bits.to_le_bytes" | "nt.ToBytes.to_le_bytes" | "nt.ToBytes.to_ne_bytes" =>
+      same (bytesStr (leBytes (nbytes bits) x))
+    | "bits.try_from_be_slice" => so (tryFromBe bits (parseBytes a))
+    | "bits.try_from_le_slice" => so (tryFromBe bits (parseBytes a).reverse)
+    | "nt.FromBytes.from_be_bytes" => uw (tryFromBe bits (parseBytes a))
+    | "nt.FromBytes.from_le_bytes" | "nt.FromBytes.from_ne_bytes" => uw (tryFromBe bits (parseBytes a).reverse)
+    | "nt.CheckedNeg.checked_neg" => so (if x = 0 then some 0 else none)
+    | "nt.WrappingNeg.wrapping_neg" => v2 (wsub bits 0 x)
+    | "nt.Zero.is_zero" => bs (decide (x = 0))
+    | "nt.One.is_one" => bs (decide (x = one bits))
+    | "nt.One.set_one" => v2 (one bits)
+    | "nt.PrimInt.count_ones" => v2 (popcount bits x)
+    | "nt.PrimInt.count_zeros" => v2 (bits - popcount bits x)
+    | "nt.PrimInt.swap_bytes" | "nt.PrimInt.to_be" | "nt.PrimInt.from_be" => uw (swapBytes bits x)
+    | _ => "skip"
+
+def binop (bits : Nat) (o : String) (a b : Nat) : String :=
+  match o with
+  | "add" => v2 (wadd bits a b)
+  | "sub" => v2 (wsub bits a b)
+  | "mul" => v2 (wmul bits a b)
+  | "div" => ov (wdiv a b)
+  | "rem" => ov (wrem a b)
+  | "and" => v2 (a &&& b)
+  | "or" => v2 (a ||| b)
+  | "xor" => v2 (a ^^^ b)
+  | "shl" => v2 (shl bits a b)
+  | "shr" => v2 (shr bits a b)
+  | _ => "skip"
+
+/-- ops with two operand tokens -/
+def e2 (op : String) (parts : List String) (bits : Nat) (a b : String) : String :=
+  let m := 2 ^ bits
+  let x := parseHex a
+  let y := parseHex b
+  let limbs := fun (v : Nat) => toLimbs (nlimbs bits) v
+  match parts with
+  | ["shl", t, _] => v2 (shl bits x (castAmt t y))
+  | ["shr", t, _] => v2 (shr bits x (castAmt t y))
+  | ["shlU", _] | ["shlU", "big", _] => v2 (shl bits x y)
+  | ["shrU", _] | ["shrU", "big", _] => v2 (shr bits x y)
+  | ["bits", o, _] => binop bits o x y
+  | [o, _] =>
+    if ["add", "sub", "mul", "div", "rem", "and", "or", "xor"].contains o then binop bits o x y
+    else match op with
+      | "ct.eq" => bs (ctEq (limbs x) (limbs y))
+      | "ct.ne" => bs (!ctEq (limbs x) (limbs y))
+      | "ct.gt" => bs (ctGt (limbs x) (limbs y))
+      | "ct.lt" => bs (ctLt (limbs x) (limbs y))
+      | "ct.negate" => v2 (if y != 0 then wsub bits 0 x else x)
+      | "ct.bit" =>
+        (match bitCt bits (limbs x) y with
+         | some r => boolStr r | none => "panic") ++ "|" ++ boolStr (bit bits (limbs x) y)
+      | "ni.div_floor" => ov (wdiv x y)
+      | "ni.mod_floor" => ov (wrem x y)
+      | "ni.gcd" => v2 (Nat.gcd x y)
+      | "ni.lcm" => uw (lcmInh bits x y)
+      | "ni.gcd_lcm" =>
+        (match lcmInh bits x y with
+         | some l => let s := toHex (Nat.gcd x y) ++ " " ++ toHex l; s ++ "|some " ++ s
+         | none => "panic|none")
+      | "ni.is_multiple_of" | "ni.divides" => bs (isMultipleOf x y)
+      | "ni.div_rem" | "ni.div_mod_floor" => if y = 0 then pp else same (toHex (x / y) ++ " " ++ toHex (x % y))
+      | "ni.div_ceil" => if y = 0 then pp else v2 (wadd bits (x / y) (if x % y = 0 then 0 else one bits))
+      | "ni.prev_multiple_of" => ov (prevMultipleOf bits x y)
+      | "bits.wrapping_shl" => v2 (shl bits x y)
+      | "bits.wrapping_shr" => v2 (shr bits x y)
+      | "bits.overflowing_shl" => fl (shl bits x y) (shlLost bits x y)
+      | "bits.overflowing_shr" => fl (shr bits x y) (shrLost bits x y)
+      | "bits.checked_shl" => so (if shlLost bits x y then none else some (shl bits x y))
+      | "bits.checked_shr" => so (if shrLost bits x y then none else some (shr bits x y))
+      | "bits.rotate_left" => v2 (rotl bits x y)
+      | "bits.rotate_right" => v2 (rotr bits x y)
+      | "bits.index" => bs (decide (y < bits) && x.testBit y)
+      | "bits.eq" => bs (decide (x = y))
+      | "bits.as_uint_mut" => v2 y
+      | _ => "skip"
+  | _ =>
+    match op with
+    | "nt.CheckedAdd.checked_add" => so (if x + y < m then some (x + y) else none)
+    | "nt.CheckedSub.checked_sub" => so (if y ≤ x then some (x - y) else none)
+    | "nt.CheckedMul.checked_mul" => so (if x * y < m then some (x * y) else none)
+    | "nt.CheckedDiv.checked_div" | "nt.CheckedEuclid.checked_div_euclid" => so (wdiv x y)
+    | "nt.CheckedRem.checked_rem" | "nt.CheckedEuclid.checked_rem_euclid" => so (wrem x y)
+    | "nt.CheckedEuclid.checked_div_rem_euclid" =>
+      if y = 0 then same "none" else same ("some " ++ toHex (x / y) ++ " " ++ toHex (x % y))
+    | "nt.Euclid.div_euclid" => ov (wdiv x y)
+    | "nt.Euclid.rem_euclid" => ov (wrem x y)
+    | "nt.Euclid.div_rem_euclid" => if y = 0 then pp else same (toHex (x / y) ++ " " ++ toHex (x % y))
+    | "nt.Saturating.saturating_add" | "nt.SaturatingAdd.saturating_add" => v2 (min (x + y) (m - 1))
+    | "nt.Saturating.saturating_sub" | "nt.SaturatingSub.saturating_sub" => v2 (x - y)
+    | "nt.SaturatingMul.saturating_mul" => v2 (min (x * y) (m - 1))
+    | "nt.WrappingAdd.wrapping_add" => v2 (wadd bits x y)
+    | "nt.WrappingSub.wrapping_sub" => v2 (wsub bits x y)
+    | "nt.WrappingMul.wrapping_mul" => v2 (wmul bits x y)
+    | "nt.OverflowingAdd.overflowing_add" => fl (wadd bits x y) (decide (m ≤ x + y))
+    | "nt.OverflowingSub.overflowing_sub" => fl (wsub bits x y) (decide (x < y))
+    | "nt.OverflowingMul.overflowing_mul" => fl (wmul bits x y) (decide (m ≤ x * y))
+    | "nt.Pow.pow" => v2 (wpow bits x y)
+    | "nt.CheckedShl.checked_shl" =>
+      let k := y % 2 ^ 32; so (if shlLost bits x k then none else some (shl bits x k))
+    | "nt.CheckedShr.checked_shr" =>
+      let k := y % 2 ^ 32; so (if shrLost bits x k then none else some (shr bits x k))
+    | "nt.WrappingShl.wrapping_shl" | "nt.PrimInt.signed_shl" | "nt.PrimInt.unsigned_shl" => v2 (shl bits x (y % 2 ^ 32))
+    | "nt.WrappingShr.wrapping_shr" | "nt.PrimInt.unsigned_shr" => v2 (shr bits x (y % 2 ^ 32))
+    | "nt.PrimInt.signed_shr" => v2 (ashr bits x (y % 2 ^ 32))
+    | "nt.PrimInt.rotate_left" => v2 (rotl bits x (y % 2 ^ 32))
+    | "nt.PrimInt.rotate_right" => v2 (rotr bits x (y % 2 ^ 32))
+    | "nt.PrimInt.pow" => ov (powU32 bits x (y % 2 ^ 32))
+    | _ => "skip"
+
+/-- ops with three operand tokens -/
+def e3 (op : String) (bits : Nat) (a b c : String) : String :=
+  let limbs := fun (v : Nat) => toLimbs (nlimbs bits) v
+  let x := limbs (parseHex a); let y := limbs (parseHex b); let ch := parseHex c != 0
+  match op with
+  | "nt.MulAdd.mul_add" | "nt.MulAddAssign.mul_add_assign" => v2 (mulAdd bits (parseHex a) (parseHex b) (parseHex c))
+  | "ct.select" | "ct.assign" => v2 (val (conditionalSelect x y ch))
+  | "ct.swap" => same (toHex (val (conditionalSelect x y ch)) ++ " " ++ toHex (val (conditionalSelect y x ch)))
+  | _ => "skip"
+
+/-- expected `F|I`, or `skip`. -/
+def expect (op : String) (bits : Nat) (rest : List String) : String :=
+  let parts := op.splitOn "."
+  match rest with
+  | [] => e0 op bits
+  | [a] => e1 op parts bits a
+  | [a, b] => e2 op parts bits a b
+  | [a, b, c] => e3 op bits a b c
+  | _ => "skip"
 
 def handle (args : List String) (impl : String) : String × String :=
   match args, splitFI impl with
   | op :: bs :: rest, some (f, i) =>
-    if parity op (parseDec bs) rest f i then ("skip", "pred:true")
-    else ("skip", "pred:false facade=" ++ f ++ " inherent=" ++ i)
+    let bits := parseDec bs
+    let spec := if parity op bits rest f i then "pred:true"
+      else "pred:false facade=" ++ f ++ " inherent=" ++ i
+    (expect op bits rest, spec)
   | _, _ => ("bad-op", "bad-op")
 
 end Ruint.DrvC20
